@@ -71,6 +71,24 @@ r = A @ sol - yobs
 assert np.allclose(e_abs, np.sqrt(np.diag(cov)), rtol=1e-6)
 assert np.allclose(e_rel, np.sqrt(np.diag(cov) * (r @ r) / 27), rtol=1e-6)
 
+# frame symmetries: array transform and point transform agree on every pixel; 8 distinct maps; shapes swap for 't*'
+a = np.arange(3 * 5, dtype=float).reshape(3, 5)
+seen = set()
+for fr in R.FRAMES:
+    b = R.frame_array(fr, a)
+    if b.shape != R.frame_shape(fr, a.shape):
+        print('frame_shape mismatch', fr)
+        fail += 1
+    for j in range(3):
+        for i in range(5):
+            x2, y2 = R.frame_point(fr, i, j, a.shape)
+            if b[y2, x2] != a[j, i]:
+                print('frame_point/array mismatch', fr, i, j)
+                fail += 1
+    seen.add((b.shape, tuple(b.ravel())))
+assert len(seen) == 8 and R.FRAMES[0] == 'id' and R.frame_point('id', 1.25, 2.5, (3, 5)) == (1.25, 2.5)
+assert R.frame_point('tfy', 1.25, 0.5, (3, 5)) == (1.5, 1.25)
+
 if fail:
     print('FAILED', fail)
     sys.exit(1)
